@@ -280,6 +280,59 @@ def slot_law(ctx):
         if there != here:
             ctx.fail(["slot", "not-a-function-of-the-key"], "an interpreter with PYTHONHASHSEED=%s maps the keys %r to slots %r, this one to %r: two processes sharing the lock table would not exclude each other" % (seed, keys, there, here), dict(what="slot", seed=seed, keys=[repr(k) for k in keys]))
 
+PROC_SCRIPT = r"""
+import sys, os, time, json
+sys.path.insert(0, %(repo)r); sys.path.insert(0, %(verif)r)
+import warnings; warnings.simplefilter("ignore")
+from harness.c19 import CacheUser
+if __name__ == "__main__":
+    from coba.context import CobaContext, DiskCacher, NullLogger
+    from coba.multiprocessing import CobaMultiprocessor
+    work = sys.argv[1]
+    CobaContext.logger = NullLogger(); CobaContext.cacher = DiskCacher(os.path.join(work, "cache"))
+    out = list(CobaMultiprocessor(CacheUser(work), 2, 0).filter([0, 1]))
+    print(json.dumps(out))
+"""
+class CacheUser:
+    """run in worker processes: both items ask the shared cacher for the same key at about the same time; the getter is slow and leaves a mark each time it runs"""
+    def __init__(self, work): self.work = work
+    def filter(self, item):
+        import time
+        from coba.context import CobaContext
+        work = self.work
+        open(os.path.join(work, "ready%d" % item), "w").close()
+        t0 = time.time()
+        while not (os.path.exists(os.path.join(work, "ready0")) and os.path.exists(os.path.join(work, "ready1"))) and time.time() - t0 < 20: time.sleep(0.01)
+        def getter():
+            with open(os.path.join(work, "getter_runs"), "a") as f: f.write("x")
+            for i in range(6):
+                time.sleep(0.15); yield "line %d" % i
+        try:
+            with CobaContext.cacher.get_set("k", getter) as v: got = [l.rstrip("\n") if isinstance(l, str) else l.decode().rstrip("\n") for l in v]
+            yield [item, "ok", got]
+        except BaseException as e:
+            yield [item, "raised", type(e).__name__]
+
+def process_law(ctx):
+    """two worker processes started by CobaMultiprocessor ask the cacher they were given for one key at the same moment: the getter runs once and both receive the complete value"""
+    work = tempfile.mkdtemp(prefix="c19p-", dir=os.path.join(VERIF, ".work"))
+    try:
+        for rep in range(ctx.n(1, 3)):
+            sub = os.path.join(work, "r%d" % rep); os.makedirs(sub)
+            sf = os.path.join(sub, "run.py"); open(sf, "w").write(PROC_SCRIPT % dict(repo=REPO, verif=VERIF))
+            case = dict(what="two worker processes, one key", repetition=rep)
+            ctx.count("process", repr(case), True)
+            try: p = subprocess.run([sys.executable, "-W", "ignore", sf, sub], capture_output=True, text=True, timeout=120, env=dict(os.environ, PYTHONHASHSEED="random"))
+            except subprocess.TimeoutExpired: ctx.fail(["process", "hang"], "two workers asking for one key did not finish within 120 s", case); continue
+            if p.returncode != 0: ctx.fail(["process", "raises"], "the run failed: %s" % p.stderr[-300:], case); continue
+            out = sorted(json.loads(p.stdout.strip().splitlines()[-1]))
+            runs = len(open(os.path.join(sub, "getter_runs")).read()) if os.path.exists(os.path.join(sub, "getter_runs")) else 0
+            full = ["line %d" % i for i in range(6)]
+            if runs != 1 or out != [[0, "ok", full], [1, "ok", full]]:
+                ctx.fail(["process", "not-exclusive"], "the getter ran %d time(s) and the two workers received %r; one run and the complete value twice are expected" % (runs, out), case)
+    finally:
+        shutil.rmtree(work, ignore_errors=True)
+
 def reentrant_law(ctx):
     """one caller may read a key again inside its own with-block (the per-thread lock count): afterwards nothing is held and the key is still usable"""
     import coba.context.cachers as cc
@@ -351,6 +404,7 @@ def run(ctx):
     disk_prefix_law(ctx)
     memory_partial_law(ctx)
     slot_law(ctx)
+    process_law(ctx)
     reentrant_law(ctx)
 
 def replay(r):
